@@ -135,7 +135,7 @@ def r1_pairing(repo: Repo, rep):
             good = el in (f"{cp}[{lv[0]}]", f"torch.as_tensor({cp}[{lv[0]}])")
             dimv = dump(stores[0].value)
             good = good and dimv.endswith(".shape[-1]") and f"{cp}[{lv[0]}]" in dimv
-            good = good and dump(c.args[1]) in (f"Space({spname})", "Space({})")
+            good = good and dump(c.args[1]) in (f"Space({spname})", "Space({})", f"Space({{{lv[0]}: {dimv}}})")
         rep.check(R, good, fi.site(p.ret_node), fi.fq, "columns appended and space entries inserted in one loop over the mapping", dump(p.ret)[:120], dump(p.ret)[:120])
 
 
@@ -298,12 +298,14 @@ def r3_selection(repo: Repo, rep, rule_id="R-C12-3"):
     vn = gi.params[1]
     ok_list = False
     for p in _ret_paths(gi):
-        if any(pol and "list" in dump(g) for g, pol, k in p.guards):
+        if any(pol and isinstance(g, ast.Call) and attr_chain(g.func) == "isinstance" and len(g.args) == 2 and dump(g.args[0]) == vn and ("list" in dump(g.args[1]) or "tuple" in dump(g.args[1]))
+               for g, pol, k in p.guards):
             r = p.ret
-            if isinstance(r, ast.Call) and attr_chain(r.func) == "Space" and r.args and isinstance(r.args[0], ast.DictComp):
-                dc = r.args[0]
-                g = dc.generators[0]
-                ok_list = dump(g.iter) == vn and not g.ifs and dump(dc.key) == dump(g.target) and dump(dc.value) == f"self[{dump(g.target)}]"
+            if isinstance(r, ast.Call) and attr_chain(r.func) == "Space" and r.args and isinstance(r.args[0], ast.Dict) and len(r.args[0].keys) == 1 and r.args[0].keys[0] is not None:
+                # one-iteration form of {k: self[k] for k in names} / the equivalent insertion loop
+                k, v = r.args[0].keys[0], r.args[0].values[0]
+                src = getattr(v, "_iter_src", None)
+                ok_list = src is not None and dump(src) == vn and dump(v) == f"self[{dump(k)}]" and isinstance(k, ast.Name) and k.id in getattr(v, "_iter_of", ())
                 rep.check(R, ok_list, gi.site(p.ret_node), gi.fq, "Space[[names]] = Space({k: self[k] for k in names}) (requested order)", dump(r), dump(r))
     if not ok_list:
         rep.undecided(R, gi.site(), gi.fq, "list selection path of Space.__getitem__", "not found")
